@@ -105,6 +105,12 @@ func (e *SpecEnv) readsArgs(sf *SpecFn, n *SpecEnv) (sorts, terms []string) {
 		if a, ok := isArrayT(t); ok {
 			t = a.Elem()
 		}
+		if mt, ok := types.Unalias(t).Underlying().(*types.Map); ok {
+			// `reads map[K]V`: the key-set and value components of maps of that type (the map reference cells follow below)
+			hk, vk := fc.mapComps(mt)
+			sorts = append(sorts, fc.comps[hk], fc.comps[vk])
+			terms = append(terms, fc.comp(e.cur, hk, fc.comps[hk]), fc.comp(e.cur, vk, fc.comps[vk]))
+		}
 		if !isLeaf(t) {
 			e.fail("uninterp %s: `reads %s` must name a leaf type (a struct is read through the types of its fields)", sf.Name, name)
 		}
